@@ -16,6 +16,7 @@ func scenarios(quick bool) []sigh.Scen {
 		// the listener is slow to read (Listen blocked in Send): requesting peers change behind its back
 		{"slow-listener-swap", [][]string{{"listens:l1:C", "attach:a1:A:C", "wait", "attach:b1:B:C", "wait", "cancel:a1", "attach:a2:A:B", "wait", "resume:l1"}}},
 		{"slow-listener-outlives-tracker", [][]string{{"listens:l1:C", "wait", "attach:a1:A:C", "wait", "cancel:a1", "wait", "listen:l2:C", "wait", "cancel:l2", "wait", "listen:l3:C", "wait", "resume:l1", "wait", "attach:b1:B:C"}}},
+		{"peers-come-and-go-racing", [][]string{{"!setup", "listen:l1:C", "attach:a1:A:C", "wait"}, {"cancel:a1", "attach:a2:A:C"}, {"attach:b1:B:C", "cancel:b1"}}},
 		{"listen-restart", [][]string{{"listen:l1:C", "cancel:l1", "listen:l2:C"}, {"attach:a1:A:C"}}},
 		{"listen-usurp", [][]string{{"listen:l1:C", "listen:l2:C"}, {"attach:a1:A:C"}}},
 		{"session-before-listen", [][]string{{"attach:a1:A:C", "cancel:a1"}, {"listen:l1:C"}, {"attach:b1:B:C"}}},
